@@ -185,6 +185,30 @@ pub fn cases(tier: &str, seed: u64) -> Vec<Case> {
                 c = c.fail("txt-entry-points", format!("add_string / with_string build another record than add_char_string for {:?}", texts));
             }
         }
+        // the same character-strings as another implementation would send them: through the wire, every piece
+        // (empty ones included, wherever they stand) arrives and the conversions give the same answers
+        if !strings.is_empty() && strings.iter().map(|x| x.len() + 1).sum::<usize>() < 60000 {
+            let mut msg = vec![0u8, 9, 0x80, 0, 0, 0, 0, 1, 0, 0, 0, 0, 0, 0, 16, 0, 1, 0, 0, 0, 5];
+            let rdlen: usize = strings.iter().map(|x| x.len() + 1).sum();
+            msg.extend_from_slice(&(rdlen as u16).to_be_bytes());
+            for x in &strings { msg.push(x.len() as u8); msg.extend_from_slice(x); }
+            match Packet::parse(&msg) {
+                Ok(p) => match p.answers.get(0).map(|a| &a.rdata) {
+                    Some(rdata::RData::TXT(tw)) => {
+                        let got: Vec<Vec<u8>> = tw.verif_strings().iter().map(|x| x.to_vec()).collect();
+                        if got != strings { c = c.fail("txt-wire-strings", format!("{} character-strings sent, {} received", strings.len(), got.len())); }
+                        else if tw.attributes() != attrs { c = c.fail("txt-wire-attributes", format!("{:?}", strings)); }
+                        else {
+                            let a: std::result::Result<String, _> = tw.clone().try_into();
+                            let b: std::result::Result<String, _> = t.clone().try_into();
+                            if a.ok() != b.ok() { c = c.fail("txt-wire-text", format!("{:?}", strings)); }
+                        }
+                    }
+                    _ => { c = c.fail("txt-wire-strings", "the record did not arrive as TXT".into()); }
+                },
+                Err(_) => { c = c.fail("txt-wire-strings", "a TXT record of valid character-strings is rejected".into()); }
+            }
+        }
         // first occurrence wins, absent vs empty
         let mut want: HashMap<String, Option<String>> = HashMap::new();
         for s in &strings {
